@@ -1,12 +1,16 @@
 """C19 - v1-to-v2 migration rewrites imports and nothing else.
 
-Streams of generated Python modules (all from ctx.rng):
+Streams of generated Python modules (all from ctx.rng), all judged by the same oracle:
   main          import forms interleaved with other statements; no rewritten import shares a
-                physical line with another statement, no linebreak-only characters
+                physical line with other code
   singles       every (module, name) of the mapping on its own, with and without alias
-  shared_line   the F21 stream: a rewritten import shares its first/last physical line
+  shared_line   a rewritten import shares its first/last physical line with other code (the
+                former F21 region: prefix statement, suffix statement, both, several imports on
+                one line, multi-line imports with shared first/last line, explicit line joining,
+                non-ASCII text before the import (byte vs character offsets), tabs, form feeds)
   linebreak     a character str.splitlines() breaks on but Python's tokenizer does not
-                (\\x0b \\x0c \\x1c \\x1d \\x1e \\x85 U+2028 U+2029) somewhere in the module
+                (\\x0b \\x0c \\x1c \\x1d \\x1e \\x85 U+2028 U+2029) somewhere in the module (the
+                former F27 region)
 For every module: (1) direct oracle on the implementation (plain Python, independent of the
 model), (2) correspondence: the `ast` view of input and output is given to the Coq model of
 rewrite_imports (theories/Migrate.v) which must predict the observed statement list.
@@ -23,16 +27,20 @@ MODEL_FILES = ["theories/Migrate.v", "theories/MigrateCase.v"]
 EXTRA_TRUSTED = [
     "C19: Python grammar / CPython ast.parse (validity of the output and the statement view of input and output: "
     "kinds, (lineno, col_offset, end_lineno, end_col_offset), names/asnames, ast.dump as identity of other statements)",
-    "C19: a module is modelled as physical lines owning pieces of top-level statements; comments and layout are not "
-    "modelled (a comment on a replaced line is lost: not a statement, reported in the notes)",
+    "C19: a module is modelled as physical lines owning pieces of top-level statements; comments, blanks, `;` and "
+    "backslash continuations are not modelled (a comment on a replaced line is lost: not a statement, reported in the "
+    "notes); the branch condition of the splice (prefix.strip() / suffix after blanks, one `;` and a comment) is "
+    "modelled as 'a piece before / a piece after' - with explicit line joining next to an import the implementation "
+    "may take the one-line branch where the model takes the line-per-statement branch; both yield the same statements "
+    "and the correspondence compares statements",
     "C19: importability of a mapping target is observed by importing it in the check's process "
     "(generated/GenExports.v), the theorem quantifies over that regenerated table",
     "C19: rendering of a replacement statement as text and reading it back (f'from {m} import {names}') is checked "
     "by the correspondence, not proved",
 ]
 
-F_SHARED = "F21"        # a rewritten from-import shares a physical line with another statement
-F_LINEBREAK = "F27"     # splitlines() and the tokenizer disagree about the physical lines
+# F21 (whole physical lines replaced) and F27 (str.splitlines() vs tokenizer lines) are repaired
+# in /repo; their input regions are still generated and any failure there is a violation.
 SPLIT_ONLY = "\x0b\x0c\x1c\x1d\x1e\x85\u2028\u2029"
 REQUIRES = "Require Import D42.Migrate D42.MigrateCase D42Gen.GenMapping."
 
@@ -96,7 +104,7 @@ _TRAILING_OK = re.compile(r"[ \t\x0c]*;?[ \t\x0c]*(#[^\r\n]*)?(\r\n|\r|\n)?\Z")
 
 
 def shared_line_imports(src, geo=None):
-    """F21 classifier, by input shape: the absolute top-level ImportFroms that share their first
+    """shape classifier (names the stream): the absolute top-level ImportFroms that share their first
     physical line with preceding code or their last physical line with following code (anything
     but blanks, one ';' and a comment).  -> list of nodes"""
     geo = geo or Geometry(src)
@@ -279,30 +287,19 @@ class Abstraction:
         for j, idx in enumerate(occ):
             if not idx or idx != list(range(idx[0], idx[-1] + 1)):
                 raise Unmodelled("statement without a contiguous run of physical lines")
-        # explicit line joining between two statements next to a rewritten import cannot be
-        # expressed by pieces-per-line (the backslash/semicolon belongs to no statement)
-        for j in range(len(body)):
-            if is_abs_import(body[j]):
-                for a, b in ((j - 1, j), (j, j + 1)):
-                    if a < 0 or b >= len(body):
-                        continue
-                    gap = self.src[ext[a][1]:ext[b][0]]
-                    gap = re.sub(r"#[^\r\n]*", "", gap)
-                    if "\\" in gap:
-                        raise Unmodelled("explicit line joining next to a rewritten import")
-        # a linebreak-only character inside a comment between statements: splitlines() cuts the
-        # comment in two and whatever is spliced in after the first half becomes comment text -
-        # comments are not represented, so the model cannot say that
-        last_imp_end = max([ext[j][1] for j in range(len(body)) if is_abs_import(body[j])] or [0])
-        edges = [0] + [x for se in ext for x in se] + [len(self.src)]
-        for a, b in zip(edges[0::2], edges[1::2]):
-            if a < last_imp_end and re.search("#[^\r\n]*[" + SPLIT_ONLY + "]", self.src[a:b]):
-                raise Unmodelled("linebreak-only character inside a comment before a rewritten import")
         lines = []
         for i, js in enumerate(per_line):
             lines.append(clist([f"Frag {self.names[j]} {cnat(occ[j].index(i))} {cnat(len(occ[j]))}" for j in js]))
-        items = [f"({self.names[j]}, {cnat(geo.first_lineno(n) - 1)}, {cnat(n.end_lineno - 1)})"
-                 for j, n in enumerate(body)]
+        # positions: (line, index among the pieces of that line) of the first piece, and the
+        # position after the last piece - the model's image of (lineno, col_offset) and
+        # (end_lineno, end_col_offset); line numbers are ast's, the piece index is read off the
+        # implementation's line at that number
+        items = []
+        for j, n in enumerate(body):
+            a, b = geo.first_lineno(n) - 1, n.end_lineno - 1
+            p = per_line[a].index(j) if a < len(per_line) and j in per_line[a] else 0
+            q = per_line[b].index(j) + 1 if b < len(per_line) and j in per_line[b] else 0
+            items.append(f"({self.names[j]}, ({cnat(a)}, {cnat(p)}), ({cnat(b)}, {cnat(q)}))")
         return clist(lines), clist(items)
 
     def observed(self, out):
@@ -370,14 +367,13 @@ DOCSTRINGS = ['"""Module doc."""', "'doc'", '"""Module doc.\n\nfrom district42 i
               "'''\nfrom valera import validate\n'''", 'r"""raw \\ doc"""']
 
 
-# fixed corner inputs, always checked first (the first failing one of a class is the example
-# printed on the KNOWN-FINDING line)
+# fixed corner inputs, always checked first
 CORNERS = [
-    "from district42 import schema; x = 1\n",                                   # F21
-    "from district42 import schema; from valera import validate\ny=2\n",         # F21: two imports, one line
-    "import a; from district42 import schema\n",                                # F21
-    "from district42 import \\\n  schema; x = 1\n",                               # F21 after a continuation
-    "x = '''a\nb'''; from district42 import schema\ny = 1\n",                    # F21 -> invalid Python
+    "from district42 import schema; x = 1\n",                                   # formerly F21
+    "from district42 import schema; from valera import validate\ny=2\n",         # formerly F21: two imports, one line
+    "import a; from district42 import schema\n",                                # formerly F21
+    "from district42 import \\\n  schema; x = 1\n",                               # formerly F21 after a continuation
+    "x = '''a\nb'''; from district42 import schema\ny = 1\n",                    # formerly F21 (gave invalid Python)
     "\x0cfrom district42 import schema\ny = 2\n",                                # linebreak: leading form feed
     "x = 1\n\x0c\nfrom district42 import schema\ny = 2\n",                       # linebreak: form feed line
     "x = 'a\x0cb'\nfrom district42 import schema\ny = 2\n",                      # linebreak: inside a string
@@ -587,7 +583,7 @@ class ModGen:
         want = None if r.random() < 0.85 else False
         return self.assemble(self.pieces(want_abs=want))
 
-    # ---- F21 stream: make an import share a physical line
+    # ---- shared-line stream: make an import share a physical line with other code
     def shared_module(self):
         r = self.r
         ps = self.pieces(want_abs=True)
@@ -596,29 +592,63 @@ class ModGen:
             ps.append(("abs", self.abs_import(mapped_module=True)))
             idx = [len(ps) - 1]
         i = r.choice(idx)
-        imp = self.abs_import(tail=False, mapped_module=r.random() < 0.8)
-        kind = r.choice(["after", "after", "before", "both", "two_imports", "string_before", "multiline_after",
-                         "joined_after", "joined_before", "after_comment"])
+
+        def imp():
+            return self.abs_import(tail=False, mapped_module=r.random() < 0.8)
+
+        def multi():
+            m = r.choice(list(self.mapping))
+            names = self.names_for(m, force_mapped=r.random() < 0.7)
+            rows = "".join(f"    {n if a is None else n + ' as ' + a},\n" for n, a in names)
+            return r.choice([f"from {m} import (\n{rows})",
+                             f"from {m} import (  # c\n\n{rows}    # d\n)"])
+
+        kind = r.choice(["after", "after", "before", "both", "two_imports", "three_imports", "string_before",
+                         "multiline_after", "joined_after", "joined_before", "after_comment", "unicode_before",
+                         "unicode_both", "tabs", "multi_shared_first", "multi_shared_last", "multi_shared_both",
+                         "multi_chain", "semicolon_comment", "formfeed_before", "trailing_space_semicolon"])
         self.forms["shared:" + kind] += 1
         s1, s2 = r.choice(SIMPLE), r.choice(SIMPLE)
         if kind == "after":
-            t = f"{imp}; {s1}"
+            t = f"{imp()}; {s1}"
         elif kind == "after_comment":
-            t = f"{imp}; {s1}  # c"
+            t = f"{imp()}; {s1}  # c"
         elif kind == "before":
-            t = f"{s1}; {imp}"
+            t = f"{s1}; {imp()}"
         elif kind == "both":
-            t = f"{s1}; {imp}; {s2}"
+            t = f"{s1}; {imp()}; {s2}"
         elif kind == "two_imports":
-            t = f"{imp}; {self.abs_import(tail=False, mapped_module=True)}"
+            t = f"{imp()}; {self.abs_import(tail=False, mapped_module=True)}"
+        elif kind == "three_imports":
+            t = f"{imp()};{self.abs_import(tail=False, mapped_module=True)} ; {imp()}" + r.choice(["", ";", "  # c"])
         elif kind == "string_before":
-            t = f"v = '''a\nb'''; {imp}"
+            t = f"v = '''a\nb'''; {imp()}"
         elif kind == "multiline_after":
-            t = f"{imp}; v = (1,\n     2)"
+            t = f"{imp()}; v = (1,\n     2)"
         elif kind == "joined_after":
-            t = f"{imp} \\\n; {s1}"
+            t = f"{imp()} \\\n; {s1}"
+        elif kind == "joined_before":
+            t = f"{s1} \\\n; {imp()}"
+        elif kind == "unicode_before":       # col_offset counts UTF-8 bytes, str indexes characters
+            t = r.choice(["w = '\u00e9\u00e9'", "\u03c9 = '\u65e5\u672c\u8a9e'", "s = '\U0001f600'"]) + f"; {imp()}"
+        elif kind == "unicode_both":
+            t = f"w = '\u00e9'; {imp()}; \u03bb = '\u65e5\u672c'"
+        elif kind == "tabs":
+            t = f"{s1};\t{imp()}\t;\t{s2}"
+        elif kind == "multi_shared_first":
+            t = f"{s1}; {multi()}"
+        elif kind == "multi_shared_last":
+            t = f"{multi()}; {s1}"
+        elif kind == "multi_shared_both":
+            t = f"{s1}; {multi()}; {s2}"
+        elif kind == "multi_chain":          # the last line of one import is the first line of the next
+            t = f"{multi()}; {multi()}" + r.choice(["", f"; {s1}"])
+        elif kind == "semicolon_comment":
+            t = f"{s1}; {imp()};  # trailing"
+        elif kind == "formfeed_before":
+            t = f"\x0c{imp()}; {s1}"
         else:
-            t = f"{s1} \\\n; {imp}"
+            t = f"{imp()} ; {s1} ;  "
         ps[i] = ("abs", t)
         return self.assemble(ps)
 
@@ -752,23 +782,16 @@ def run(ctx):
     if rejects > max(5, len(cases) // 50):
         raise common.CheckBroken(f"C19 generator produced {rejects} unparsable modules")
 
-    # ---- oracle on the implementation
+    # ---- oracle on the implementation (every stream is judged alike)
     fails = collections.Counter()
-    known_examples = {}
     for c in cases:
         c.out, c.why = oracle(c.src, mapping, rewrite)
         c.cls = classify(c.src)
         if c.why is None:
             continue
         fails[c.cls or "unclassified"] += 1
-        if c.cls == "shared_line" and ctx.known_finding(F_SHARED, f"rewrite_imports({_short(c.src)}, mapping): {c.why[:160]}"):
-            known_examples.setdefault(F_SHARED, c)
-            continue
-        if c.cls == "linebreak_chars" and ctx.known_finding(F_LINEBREAK, f"rewrite_imports({_short(c.src)}, mapping): {c.why[:160]}"):
-            known_examples.setdefault(F_LINEBREAK, c)
-            continue
-        label = {"shared_line": f" [{F_SHARED}: a rewritten from-import shares a physical line with another statement]",
-                 "linebreak_chars": f" [{F_LINEBREAK}: a linebreak-only character before a rewritten import]"}.get(c.cls, "")
+        label = {"shared_line": " [a rewritten from-import shares a physical line with other code]",
+                 "linebreak_chars": " [the implementation's line list differs from the tokenizer's]"}.get(c.cls, "")
         if len(ctx.violations) < 40:
             ctx.violation("rewrite_imports violates the property" + label + ": " + c.why,
                           _replay_dict(c, "None or valid Python with every top-level absolute from-import replaced at its place "
@@ -781,8 +804,9 @@ def run(ctx):
     for c in cases:
         try:
             ab = Abstraction(c.src)
-            expect_region = c.stream in ("main", "singles")
-            flags = (not misaligned(c.src, ab.geo), not shared_line_imports(c.src, ab.geo), expect_region, c.why is not None)
+            # (py_aligned, expect_region, oracle_failed): every input is meant to satisfy the
+            # hypothesis of rewrite_splice_correct (the ast view given is the lines' own)
+            flags = (not misaligned(c.src, ab.geo), True, c.why is not None)
             c.term = ab.case_term(c.out if (c.out is None or isinstance(c.out, str)) else None, flags)
             modelled.append(c)
         except Unmodelled as e:
@@ -832,10 +856,11 @@ def run(ctx):
              "(not None); distinct by source text. Oracle (plain Python on the implementation): output parses; statement "
              "sequence equals the input's with each absolute from-import replaced at its place by absolute from-imports "
              "binding the expected (local -> (module, name)) multiset; None only without mapped names; a second run changes "
-             "nothing. Correspondence: Coq model of rewrite_imports on the ast view (splitlines lines owning statement "
-             "pieces + ast spans) must predict the observed statement list (or None), the Python classifiers must cover "
-             "the theorem's hypotheses, main/singles inputs must lie inside them, and inside them the model output is "
-             "re-checked against the right-hand side of rewrite_splice_correct.",
+             "nothing. Every stream (incl. imports sharing physical lines with other code in 21 shapes, and modules "
+             "with linebreak-only characters) is judged by this same oracle. Correspondence: Coq model of rewrite_imports "
+             "on the ast view (the implementation's lines owning statement pieces + ast positions as (line, piece "
+             "index)) must predict the observed statement list (or None); every input must satisfy the hypothesis of "
+             "rewrite_splice_correct (aligned), and the model output is re-checked against the theorem's right-hand side.",
         samples=samples,
         correspondence={"suite": "rewrite_imports statement view", "cases": len(modelled), "mismatches": len(bad),
                         "unmodelled": len(cases) - len(modelled), "unmodelled_reasons": dict(unmodelled)},
